@@ -345,7 +345,12 @@ class SolverActor:
             if pshare and pshare in w.shared_problems:
                 self.problem = w.shared_problems[pshare]
                 have = ([float(v) for v in self.problem.lowerBoundOfFloatVariables], [float(v) for v in self.problem.upperBoundOfFloatVariables])
-                if have != (self.lower, self.upper):
+                if have != (self.lower, self.upper) and id(self.problem) not in w.moved_boxes:
+                    # nobody but the library can have done this: the caller's Problem no longer has the box it was given
+                    w.flag(w.plan.get("property", "?"), "shared_problem_modified", "the public bounds of the Problem object that %s is about to be "
+                           "built on were changed from %r to %r - not by the caller" % (self.aid, (self.lower, self.upper), have), "create")
+                    self.lower, self.upper = have
+                elif have != (self.lower, self.upper):
                     raise HarnessError("inconsistent plan: %s expects the shared Problem's box to be %r, it is %r" % (self.aid, (self.lower, self.upper), have))
                 w.fired["solver_on_shared_problem_object"] += 1
             elif pshare:
@@ -399,7 +404,7 @@ class SolverActor:
                     if self.spec.get("params_set") == "positional" and "startPoint" not in kw:
                         # the first four parameters written positionally: SolverParameters(eps, r, itersLimit, evolventDensity)
                         self.parameters = SolverParameters(kw["eps"], kw["r"], kw["itersLimit"], kw["evolventDensity"],
-                                                           **{k2: kw[k2] for k2 in ("epsR", "refineSolution") if k2 in kw})
+                                                           refineSolution=kw["refineSolution"])
                         w.fired["parameters_given_positionally"] += 1
                     elif self.spec.get("params_set") == "attr":
                         # the user builds a default object and then assigns its public fields
@@ -896,6 +901,7 @@ class World:
             self.actors[aid] = SolverActor(self, aid, plan["actors"][aid])
         self.shared_params = {}
         self.shared_problems = {}
+        self.moved_boxes = set()       # id() of the Problem objects whose box the CALLER has changed (op narrow_box)
         self.shared_listeners = {}
         self.exec_stack = []
         self.nested_eval = {}
@@ -1133,6 +1139,7 @@ class World:
                         cur[:] = vals
                     else:
                         setattr(pb, name, type(cur)(vals) if isinstance(cur, list) else vals)
+                self.moved_boxes.add(id(pb))
                 self.fired["problem_bound_arrays_narrowed_in_place"] += 1
             elif kind == "clone":
                 # checkpoint / rollback: the user continues with a deep copy of the solver
